@@ -1138,6 +1138,7 @@ VARIANTS = [
     B("c12-lammps-conditional-negation", LAMMPS, "                        vel = posvel[:, 3:]\n", "                        vel = -posvel[:, 3:] if reverse else posvel[:, 3:]\n", "R-12.6"),
     B("c12-turtle-negated-arg", TURTLE, "                    vel=tmd_system.particles.vel,\n                    box=tmd_system.box.length,\n                )\n                msg_file.write(\n                    f'{step_nr}", "                    vel=-tmd_system.particles.vel,\n                    box=tmd_system.box.length,\n                )\n                msg_file.write(\n                    f'{step_nr}", "R-12.6"),
     # ---- R-12.7
+    B("c12-gromacs-data-wait-without-poll", GROMACS, "                                if (\n                                    self.check_poll() is not None\n                                    and os.path.getsize(self.trr_file)\n                                    < self.bytes_read + self.data_size\n                                ):\n                                    self.stop_read = True\n                                    break\n", "", "R-12.7", why="pre-fix F12.3"),
     B("c12-lammps-wait-without-poll", LAMMPS, '                sleep(self.sleep)\n                if exe.poll() is not None:\n                    logger.debug("LAMMPS execution stopped")\n                    break\n', "                sleep(self.sleep)\n", "R-12.7", control=True),
     B("c12-gromacs-start-without-poll", GROMACS, '                sleep(self.SLEEP)\n                poll = self.check_poll()\n                if poll is not None:\n                    logger.debug("GROMACS execution stopped")\n                    break\n', "                sleep(self.SLEEP)\n", "R-12.7"),
     B("c12-lammps-shared-box-buffer", ENGPARTS, "            coordinate_snapshot = np.zeros((N_atoms, 6), dtype=np.float64)\n            box_snapshot = np.zeros((3, 3), dtype=np.float64)\n    return trajectory, box", "            coordinate_snapshot = np.zeros((N_atoms, 6), dtype=np.float64)\n    return trajectory, box", "R-12.8", control=True, why="seeded C12_a"),
